@@ -174,6 +174,11 @@ def mod_work(name, tier, viols, stats, counters):
             for p in sorted({0, 1, len(c) // 2, len(c) - 1, len(c)}):
                 evals += compare(name, mod, ref, t, c[:p] + ch + c[p:], viols, stats)
                 evals += compare(name, mod, ref, t, c[:p] + ch + c[p + 1:], viols, stats)
+        # letters that only a case-insensitive match takes for A-Z and that upper() leaves alone (KELVIN SIGN, I WITH DOT)
+        for p, ch in enumerate(c):
+            if ch.isalpha():
+                for odd in ('\u212a', '\u0130'):
+                    evals += compare(name, mod, ref, t, c[:p] + odd + c[p + 1:], viols, stats)
         if name == 'bitcoin':
             for y in (c.upper(), c.lower(), c.swapcase(), c[:4] + c[4:].upper(), c.capitalize(), ' ' + c, c + '\n'):
                 evals += compare(name, mod, ref, t, y, viols, stats)
@@ -184,6 +189,24 @@ def mod_work(name, tier, viols, stats, counters):
             return ref(x, t)[0] is not None
         except Exception:  # noqa: B902
             return False
+    def ref_repair(cand):
+        found = cand if ref_ok(cand) else None
+        if found is None:
+            n2 = len(cand)
+            for p in [n2 - 1, n2 - 2, 2, 3, 0, 1]:
+                if not (0 <= p < n2):
+                    continue
+                for ch in refs.DIGITS + 'X' + (refs.UPPER if not cand[p].isdigit() else ''):
+                    y = cand[:p] + ch + cand[p + 1:]
+                    if ref_ok(y):
+                        return y
+        if found is None and len(cand) > 4:
+            for a in refs.DIGITS:
+                for b in refs.DIGITS:
+                    for y in (cand[:-2] + a + b, cand[:2] + a + b + cand[4:]):
+                        if ref_ok(y):
+                            return y
+        return found
     refvalid = []
     for c in canon[:40 if tier == 'quick' else 400]:
         if not ref_ok(c):
@@ -197,34 +220,37 @@ def mod_work(name, tier, viols, stats, counters):
                     pool = refs._B32 if c[:3].lower() == 'bc1' else refs._B58
                 s2[p] = rng.choice(pool)
             cand = ''.join(s2)
-            found = cand if ref_ok(cand) else None
-            if found is None:
-                n2 = len(cand)
-                for p in [n2 - 1, n2 - 2, 2, 3, 0, 1]:
-                    if not (0 <= p < n2):
-                        continue
-                    for ch in refs.DIGITS + 'X' + (refs.UPPER if not cand[p].isdigit() else ''):
-                        y = cand[:p] + ch + cand[p + 1:]
-                        if ref_ok(y):
-                            found = y
-                            break
-                    if found:
-                        break
-            if found is None and len(cand) > 4:
-                for a in refs.DIGITS:
-                    for b in refs.DIGITS:
-                        for y in (cand[:-2] + a + b, cand[:2] + a + b + cand[4:]):
-                            if ref_ok(y):
-                                found = y
-                                break
-                        if found:
-                            break
-                    if found:
-                        break
+            found = ref_repair(cand)
             if found and found not in refvalid:
                 refvalid.append(found)
+    # the same for the other lengths the standard allows: digits inserted after / removed from the first digit run
+    for c in canon[:6 if tier == 'quick' else 60]:
+        dpos = [i for i, ch in enumerate(c) if ch.isdigit()]
+        if len(dpos) < 3:
+            continue
+        for delta in (-3, -2, -1, 1, 2, 3, 4, 5):
+            p = dpos[1]
+            if delta > 0:
+                cand = c[:p] + ''.join(rng.choice(refs.DIGITS) for _ in range(delta)) + c[p:]
+            else:
+                run = 0
+                while p + run < len(c) and c[p + run].isdigit():
+                    run += 1
+                if run <= -delta:
+                    continue
+                cand = c[:p] + c[p - delta:]
+            if len(cand) > refs.MAXLEN[name]:
+                continue
+            found = ref_repair(cand)
+            if found and found not in refvalid and found not in canon:
+                refvalid.append(found)
+                counters['reference_valid_other_lengths'] = counters.get('reference_valid_other_lengths', 0) + 1
     for y in refvalid:
         evals += compare(name, mod, ref, t, y, viols, stats)
+        # and written without the separators of the display form
+        bare = ''.join(ch for ch in y if ch.isalnum())
+        if bare != y:
+            evals += compare_presented(name, mod, ref, t, bare, viols, stats)
     counters['reference_valid_synthesised'] += len(refvalid)
     # human-readable spellings: separators of the standard's display form anywhere, label variants in front
     seps, labels = refs.PRESENTATION[name]
